@@ -73,6 +73,7 @@ RUNS = (
   + per_e('node_dtor', 'h_node_dtor', ES, lambda e: ['ram_node_dtor.0:%d' % (e + 3 + 2)], cls='shape-complete', defs={'XV_DTOR_BOUNDED': 1, 'XV_OV': 3},
           note='pop_idx, push_idx up to 3 tickets beyond max_idx (three threads hit the full / drained node)')
   + per_e('node_dtor_any', 'h_node_dtor', ES, lambda e: ['ram_node_dtor.0:%d' % (e + 2)], cls='shape-complete', unwind_obligation='ram.node_dtor.owned_only',
+          solver=['--sat-solver', 'cadical'],
           note='pop_idx, push_idx any multiples of step_size below 2^27*step_size; ~node must finish within entries_per_node iterations')
   + per_e('ctor', 'h_ctor', [1, 4], lambda e: ['ram_node_ctor.0:%d' % (e + 1)], cls='shape-complete')
   + per_e('dtor', 'h_dtor', [1, 4], lambda e: ['ram_dtor.0:5'], cls='shape-complete', note='list of 1..3 nodes plus unlisted nodes')
@@ -87,7 +88,9 @@ RUNS = (
   + per_e('try_pop', 'h_try_pop', [4], lambda e: [], es=[4], cls='unbounded')
   + per_e('push_int', 'h_push_int', ES, lambda e: ['ram_node_ctor.0:%d' % (e + 1), 'ram_node_dtor.0:%d' % (e + 2)], mode='INT', cls='shape-complete')
   + per_er('pop_int', 'h_pop_int', ER, lambda e, r: ['ram_pop_cut.%d:%d' % (i, r + 2) for i in range(3)], ER, mode='INT', cls='shape-complete')
-  + per_e('push_rollback', 'h_push_rollback', ES, lambda e: ['ram_push.0:%d' % (2 * e + 5), 'ram_push.1:%d' % (2 * e + 5), 'ram_node_ctor.0:%d' % (e + 1), 'ram_node_dtor.0:%d' % (e + 2)], mode='INT', cls='shape-complete')
+  + per_e('push_rollback', 'h_push_rollback', [1], lambda e: ['ram_push.0:%d' % (e + 4), 'ram_push.1:%d' % (e + 4), 'ram_node_ctor.0:%d' % (e + 1), 'ram_node_dtor.0:%d' % (e + 2)],
+          es=[1, 2, 3], mode='INT', cls='shape-complete',
+          note='end-to-end scenario on the original loop: a competing producer links its node between the load of next and the CAS')
 )
 
 UNIT = dict(
